@@ -7,7 +7,7 @@ def queries():
         qs.append(Query('seq_h%d' % h, SRC, 'h_countingptr',
                         'sequential history: %d symbolic operations out of 17 kinds over 3 CountingPtr<Obj> handles + 1 CountingPtr<Base>, up to 4 objects (incl. unify copies)' % h,
                         defs=['H=%d' % h], tiers=('quick', 'thorough') if h <= 3 else ('thorough',), timeout=900 if h <= 3 else 7200, unwind=5, weight=h))
-    for nthr, nc, rounds, quick in ((2, 0, 12, True), (2, 1, 22, False), (2, 2, 34, False), (3, 1, 34, False)):   # quick: two threads dropping their handles (the decisive decrement race); copies add 20+ min
+    for nthr, nc, rounds, quick in ((2, 0, 18, True), (2, 1, 22, False), (2, 2, 34, False), (3, 1, 34, False)):   # quick: two threads dropping their handles (the decisive decrement race); copies add 20+ min
         qs.append(Query('conc_t%d_c%d' % (nthr, nc), 'C12_conc.cpp', 'h_countingptr_conc',
                         '%d threads, each copying (%d time(s)) and dropping handles to one shared object; every interleaving at the granularity of the atomic operations of inc_reference / dec_reference' % (nthr, nc),
                         defs=['NTHR=%d' % nthr, 'NCOPIES=%d' % nc], conc=True, nt=nthr + 1, rounds=rounds, yield_atomics=True, tiers=('quick', 'thorough') if quick else ('thorough',), timeout=3600 if quick else 14400, unwind=4, max_unwind=80, weight=nthr * nc * 3))
